@@ -226,7 +226,9 @@ def opSrv (args : List String) (impl : String) : Verdict :=
       let leak := kvLookup imp "leak"
       let pub := kvLookup imp "pub"
       let statsL := (kvLookup imp "stats").splitOn ","
-      let stat (i : Nat) : Nat := (statsL.getD i "0").toNat!
+      let qstatsL := (kvLookup imp "qstats").splitOn ","
+      -- what the recorder still holds plus what it already published through the statistics queue
+      let stat (i : Nat) : Nat := (statsL.getD i "0").toNat! + (qstatsL.getD i "0").toNat!
       let nDgrams := allDgrams.length
       let nRfcRep := (replies.filter fun r => isIetfDgram r.2).length
       let bytesOut := (replies.map fun r => r.2.length).sum
